@@ -18,7 +18,7 @@ RULE = ('case = (base message: producer x recipient kind x cipher x body x compr
         'non-trivial = the mutation class produced at least one attempt whose outcome was an exception; distinct = distinct (base, class, part) descriptors')
 ASSUMPTIONS = ['the legacy-SED downgrade (tag 18 -> tag 9 rewrite) is outside the enumerated mutation classes (DESIGN.md C04 limits)',
                'cryptography/OpenSSL block ciphers, RSA, ECDH']
-MIN_COUNTERS = {'quick': {'attempts': 20000, 'bitflip_attempts': 12000, 'truncation_attempts': 1500, 'splice_attempts': 100, 'wrong_secret_attempts': 60, 'rejected': 15000, 'cross_message_splices': 10},
+MIN_COUNTERS = {'quick': {'attempts': 20000, 'bitflip_attempts': 12000, 'truncation_attempts': 1500, 'splice_attempts': 100, 'wrong_secret_attempts': 60, 'rejected': 15000, 'cross_message_splices': 10, 'cipher_octet_forgeries': 50},
                 'thorough': {'attempts': 150000}}
 BUDGET = {'quick': (600, 1500), 'thorough': (1800, 3600)}
 TECHNIQUE = 'runtime monitoring: exhaustive data-fault injection on ciphertexts (bit flips, truncations, splices, block and packet edits, wrong secrets) with a deterministic outcome oracle'
@@ -323,6 +323,35 @@ def run_case(ctx, d):
                 if len(esk) > 0:
                     attempt(ctx, pgpy, esk[0] + extra + b''.join(esk[1:]) + datapkt, secret, [data], name + '-after-first-esk', d)
             attempt(ctx, pgpy, marker + b''.join(esk) + datapkt, secret, [data], 'marker-prepended', d)
+            # forgery that needs no secret at all: the cipher octet inside a passphrase session-key packet is turned into another one by xor (the
+            # first octet of a CFB stream) - in particular into 0, "no encryption" - and the body is replaced by text in the clear with its unkeyed hash
+            import hashlib
+            cid = encwork.CIPHERS[d['cipher']]
+            for ei, e_ in enumerate(esk):
+                ep = wire.split(e_)[0]
+                if ep.tag != 3:
+                    continue
+                f_ = sym.skesk_fields(ep.body)
+                if not f_['esk']:
+                    continue
+                pos = len(ep.body) - len(f_['esk'])
+                for target in (0, 1, 2, 3, 4, 7, 9, 10, 13):
+                    if target == cid:
+                        continue
+                    nb_ = bytearray(ep.body)
+                    nb_[pos] ^= cid ^ target
+                    forged_esk = wire.new_hdr(3, len(nb_)) + bytes(nb_)
+                    for fbs in (8, 16):
+                        pre = bytes(rng.getrandbits(8) for _ in range(fbs))
+                        pre += pre[-2:]
+                        clear = pre + evil + b'\xd3\x14'
+                        body_ = b'\x01' + clear + hashlib.sha1(clear).digest()
+                        parts_ = list(esk)
+                        parts_[ei] = forged_esk
+                        attempt(ctx, pgpy, b''.join(parts_) + wire.new_hdr(18, len(body_)) + body_, secret, [data], 'cipher-octet-rewritten-to-%d-and-body-in-the-clear' % target, d,
+                                {'block': fbs}, 'cipher_octet_forgeries')
+                        attempt(ctx, pgpy, b''.join(parts_) + wire.new_hdr(9, len(clear) ) + clear, secret, [data], 'cipher-octet-rewritten-to-%d-and-old-style-body-in-the-clear' % target, d,
+                                {'block': fbs}, 'cipher_octet_forgeries')
         elif m == 'wrong_secret':
             # the same message *object*, after it has been decrypted successfully once: a wrong secret must still be refused
             try:
